@@ -117,7 +117,7 @@ func (c *collSpace) Ops(w *World) []Op {
 // OOrder: iteration order = ascending digest tuple, insertion order among full collisions.
 func OOrder(w *World) error {
 	for _, c := range w.LiveRoots() {
-		if !c.IsMap || w.Digests == nil {
+		if !c.IsMap || w.Digests == nil || !c.Table {
 			continue
 		}
 		if err := w.EnsureHandle(c); err != nil {
